@@ -341,6 +341,15 @@ fn power_trace(n: usize, shape: usize) -> PowerTrace {
     PowerTrace::new(time, pwr, vec![Some(true); n + 1])
 }
 
+/// the shipped five-unit consist recording every step, with unit 0 recording nothing and unit 2 every 4th step
+fn hetero_consist() -> Consist {
+    let mut c = Consist::default();
+    c.set_save_interval(Some(1));
+    c.loco_vec[0].set_save_interval(None);
+    c.loco_vec[2].set_save_interval(Some(4));
+    c
+}
+
 fn simple_net() -> Network {
     build_topology(&line_topology(&[1200.0, 900.0], 15.0), true, SetStyle::Map)
 }
@@ -369,7 +378,7 @@ pub fn subjects() -> Vec<&'static str> {
     vec![
         "FuelConverter", "FuelConverter:stepped", "Generator", "ElectricDrivetrain", "ReversibleEnergyStorage", "Locomotive:conv", "Locomotive:bel", "Locomotive:hybrid", "Locomotive:dummy", "Locomotive:conv:stepped", "Consist", "Consist:stepped", "PowerTrace", "SpeedTrace", "RailVehicle", "TrainConfig", "TrainSimBuilder",
         "LocomotiveSimulationVec:stepped", "SpeedLimitTrainSimVec", "Link", "SpeedSet", "Location", "TimedLinkPath", "LinkPath", "TrainRes", "BrakingPoints", "ReversibleEnergyStorage:stepped", "Locomotive:hybrid:stepped",
-        "TrainParams", "PathTpc:unfinished", "PathTpc:finished", "FricBrake", "Network", "EstTimeNet", "TimedPath", "SetSpeedTrainSim:default", "SpeedLimitTrainSim:valid", "LocomotiveSimulation:0", "LocomotiveSimulation:1", "LocomotiveSimulation:2", "LocomotiveSimulation:3", "LocomotiveSimulation:4", "ConsistSimulation:0", "ConsistSimulation:1", "ConsistSimulation:2", "ConsistSimulation:3", "ConsistSimulation:4", "SetSpeedTrainSim:0",
+        "TrainParams", "PathTpc:unfinished", "PathTpc:finished", "FricBrake", "Network", "EstTimeNet", "TimedPath", "SetSpeedTrainSim:default", "SpeedLimitTrainSim:valid", "LocomotiveSimulation:0", "LocomotiveSimulation:1", "LocomotiveSimulation:2", "LocomotiveSimulation:3", "LocomotiveSimulation:4", "ConsistSimulation:0", "ConsistSimulation:1", "ConsistSimulation:2", "ConsistSimulation:3", "ConsistSimulation:4", "ConsistSimulation:5", "Consist:own-intervals", "SetSpeedTrainSim:0",
         "SetSpeedTrainSim:1", "SetSpeedTrainSim:2", "SpeedLimitTrainSim:0", "SpeedLimitTrainSim:1", "SpeedLimitTrainSim:2",
     ]
 }
@@ -424,6 +433,9 @@ pub fn run_case(c: &Case, n_steps: usize, checks: &mut u64) -> (Fails, u64) {
             let _ = sim.walk();
             sim.loco_con
         }),
+        // nested objects on save intervals of their own (set after construction through the public per-unit setter):
+        // a round trip must not "normalise" them
+        "Consist:own-intervals" => obj!(hetero_consist()),
         "PowerTrace" => obj!(power_trace(6, 2)),
         "SpeedTrace" => obj!(SpeedTrace::new(vec![0.0, 1.0, 2.5], vec![0.0, 0.4, 1.1], Some(vec![true, true, false]))),
         "RailVehicle" => obj!(manifest(true, true)),
@@ -499,13 +511,19 @@ pub fn run_case(c: &Case, n_steps: usize, checks: &mut u64) -> (Fails, u64) {
         s if s.starts_with("ConsistSimulation:") => {
             // shapes 3 / 4: consists with a hybrid unit (hybrid+conv RESGreedy, hybrid+BEL+conv Proportional)
             let con = match shape {
+                5 => hetero_consist(),
                 0 => Consist::default(),
                 1 => consist(2, Some(1)),
                 2 => consist(4, Some(1)),
                 3 => consist(5, Some(1)),
                 _ => consist(6, Some(1)),
             };
-            let root = ConsistSimulation::new(con, power_trace(n_steps, if shape >= 3 { shape - 3 } else { shape }), Some(1));
+            let mut root = ConsistSimulation::new(con, power_trace(n_steps, if shape >= 3 { shape - 3 } else { shape }), Some(1));
+            if shape == 5 {
+                // the constructor propagates one interval: put two units on their own afterwards
+                root.loco_con.loco_vec[0].set_save_interval(None);
+                root.loco_con.loco_vec[2].set_save_interval(Some(4));
+            }
             resume_check(&c.subject, &root, c.checkpoint, fmt, file, checks)
         }
         s if s.starts_with("SetSpeedTrainSim:") => {
@@ -536,7 +554,7 @@ impl Prop for C17 {
         "fault_enumeration"
     }
     fn rule(&self, tier: Tier) -> String {
-        format!("E-CKPT: {} catalogue entries (the four components default and stepped, Locomotive conv/BEL/hybrid/dummy, Consist default and stepped, PowerTrace, SpeedTrace, RailVehicle, TrainConfig, TrainSimBuilder, LocomotiveSimulationVec (walked), SpeedLimitTrainSimVec, Link, SpeedSet, Location, TimedLinkPath, LinkPath, TrainRes and BrakingPoints of a prepared run, stepped battery and stepped hybrid unit, TrainParams, PathTpc unfinished/finished, FricBrake, Network, EstTimeNet, timed path, SetSpeedTrainSim::default, SpeedLimitTrainSim::valid, and three run shapes each of LocomotiveSimulation / ConsistSimulation / SetSpeedTrainSim / SpeedLimitTrainSim, plus two hybrid-unit shapes each of LocomotiveSimulation / ConsistSimulation) x formats {{yaml, json, bin}} x {{string/bytes API, to_file/from_file onto a path that already holds a longer file}} x EVERY step index 0..{} of the runs (0..65 for the hybrid shapes in the thorough tier: past the hybrid controller's 60-step re-optimisation interval) as the checkpoint position (checkpoint = crash point). Oracle: save and load succeed, load(save(x)) == load(save(load(save(x)))), the reloaded object describes the same object, and the run resumed from the reloaded copy reproduces every remaining step and the final state (bit-exact for yaml/bin, 1e-9 relative for json). distinct_nontrivial = distinct (subject, format, outcome class) signatures.", subjects().len(), n_steps(tier))
+        format!("E-CKPT: {} catalogue entries (the four components default and stepped, Locomotive conv/BEL/hybrid/dummy, Consist default and stepped, PowerTrace, SpeedTrace, RailVehicle, TrainConfig, TrainSimBuilder, LocomotiveSimulationVec (walked), SpeedLimitTrainSimVec, Link, SpeedSet, Location, TimedLinkPath, LinkPath, TrainRes and BrakingPoints of a prepared run, stepped battery and stepped hybrid unit, TrainParams, PathTpc unfinished/finished, FricBrake, Network, EstTimeNet, timed path, SetSpeedTrainSim::default, SpeedLimitTrainSim::valid, and three run shapes each of LocomotiveSimulation / ConsistSimulation / SetSpeedTrainSim / SpeedLimitTrainSim, plus two hybrid-unit shapes each of LocomotiveSimulation / ConsistSimulation, and a consist / ConsistSimulation whose units are on save intervals of their own) x formats {{yaml, json, bin}} x {{string/bytes API, to_file/from_file onto a path that already holds a longer file}} x EVERY step index 0..{} of the runs (0..65 for the hybrid shapes in the thorough tier: past the hybrid controller's 60-step re-optimisation interval) as the checkpoint position (checkpoint = crash point). Oracle: save and load succeed, load(save(x)) == load(save(load(save(x)))), the reloaded object describes the same object, and the run resumed from the reloaded copy reproduces every remaining step and the final state (bit-exact for yaml/bin, 1e-9 relative for json). distinct_nontrivial = distinct (subject, format, outcome class) signatures.", subjects().len(), n_steps(tier))
     }
     fn assumptions(&self) -> Vec<String> {
         vec![
